@@ -207,7 +207,10 @@ def rules(rep, m):
     be = m.need("cmb_random_bernoulli")
     rv = [render(kids(x)[0]) for x in walk(be.body) if x["kind"] == "ReturnStmt"]
     r4.instance("bernoulli returns %s" % rv)
-    if not rv or not re.fullmatch(r"\(.+ \? 1 : 0\)", rv[0]):
+    def zero_one(t_):
+        return re.fullmatch(r"\(?[01]u?\)?", t_) is not None or re.fullmatch(r"\(.+ \? [01] : [01]\)", t_) is not None or \
+            re.fullmatch(r"\(.+ (<|<=|>|>=|==|!=) .+\)", t_) is not None
+    if not rv or not all(zero_one(t_) for t_ in rv):
         rep.finding(r4, be.name, "bernoulli:range", "a Bernoulli trial returns %s" % rv, where=m.rel(be.where))
         r4.fail()
     else:
